@@ -26,6 +26,9 @@ RULE = (
 )
 KEYS = ("a", "p:a")  # the second key begins with the configured prefix: forced to collide if prefixing is wrong
 TTL_CLAMP = 6
+ITEM_MAX = 8  # a tiny item limit on both models, so that a refused item is part of the universe
+BIG = b"toolarge!"
+AbstractCache.item_max = ITEM_MAX
 MAXLEN = {"quick": 2, "thorough": 3}
 MAXNUM = 3
 
@@ -39,6 +42,8 @@ def events(dn):
             for e in (0, 5, -1):
                 for nr in nrs:
                     ev.append(("set", (k, v), dict(expire=e, noreply=nr)))
+        for nr in nrs:
+            ev.append(("set", (k, BIG), dict(noreply=nr)))
         for name in ("add", "replace"):
             for e in (0, 5):
                 for nr in nrs:
@@ -70,6 +75,8 @@ def events(dn):
             ev.append(("set_many", ({KEYS[0]: b"1", KEYS[1]: b"x"},), dict(expire=e, noreply=nr)))
         for d in (0, 5):
             ev.append(("flush_all", (), dict(delay=d, noreply=nr)))
+        ev.append(("set_many", ({KEYS[0]: BIG, KEYS[1]: b"x"},), dict(noreply=nr)))
+        ev.append(("set_many", ({KEYS[0]: b"1", KEYS[1]: BIG},), dict(noreply=nr)))
     ev.append(("advance", (1,), {}))
     ev.append(("advance", (10,), {}))
     return ev
@@ -91,7 +98,7 @@ def initial_states():
         srv_items = {}
         cas = 0
         for k, v in items.items():
-            a.set(k, v)
+            a._put(k, v, 0, 0)  # seeded directly: these items predate the tiny item limit
             cas += 1
             srv_items[k] = (v, 0, 0, cas)
         out.append((name, (srv_items, cas, None, t0), a.dump(), {}))
@@ -100,9 +107,9 @@ def initial_states():
 
 def make_world(prefix, dn, snap):
     srv_items, cas, flush, now = snap
-    net = simnet.SimNet(now=now)
+    net = simnet.SimNet(now=now, delivery="segment")  # replies to pipelined commands arrive one by one
     stacks.PROXY.current = net.clock
-    srv = net.add_server("h1", 11211)
+    srv = net.add_server("h1", 11211, item_max=ITEM_MAX)
     for k, (v, f, e, c) in srv_items.items():
         srv.items[prefix + k.encode()] = Item(v, f, e, c)
     srv.cas_counter = cas
@@ -185,7 +192,7 @@ def step(prefix, dn, state, ev):
     want = getattr(a, name)(*[list(x) if isinstance(x, tuple) and name.endswith("many") else x for x in real_args], **akw)
     # a follow-up on the same connection: each call must still get the answer to its own request
     probe_bad = None
-    if not isinstance(got, Raises):
+    if not isinstance(got, Raises) or got == want:
         try:
             pg = client.gets(KEYS[0])
             pd = client.delete("zz-absent", noreply=False)
